@@ -40,7 +40,9 @@ META = {
     "one FileSet.copy call is made per distinct (class, paths) of a field (C34_memo); each call's operation is among "
     "copy_mode & reduced supported modes — never a symlink with a path on CIFS, never a hard link across mounts, a real "
     "copy for copy_mode=copy with destinations inside the job directory that did not exist before, 'leave' passes the "
-    "original object (C34_mode, C34_supported_symlink/_hardlink/_keeps).  The id-keyed cache of apply_to_instances is "
+    "original object (C34_mode, C34_supported_symlink/_hardlink/_keeps).  The staging gate contains_type(FileSet, type) is "
+    "true iff SOME leaf of the declared type tree is a file class, and then every file leaf of the value is staged per the "
+    "mode (C34_gate, C34_every_file_staged).  The id-keyed cache of apply_to_instances is "
     "proved inert (C34_idmemo_inert).  The full statement fails on the pinned tree: each field gets a NEW clash set, so "
     "equal names (or the same object) in two fields raise FileExistsError (C34_witness_cross_field, C34_full_fails; "
     "known finding D50).  Tie to pydra: Job.inputs on real files for every copy mode/collation with a patched mount "
@@ -48,7 +50,9 @@ META = {
     "note": "Trusted: Lean kernel; hand-written model; the contract of fileformats.FileSet.copy (assumed, sampled on every "
     "run).  Hollowness (DESIGN §10): 'a copy is independent / a link shows the original content' is fileformats' doing and "
     "enters only through the contract; pydra's own share is the loop, the memo, the mount-based mask and the traversal.",
-    "rule": "case = (file-sets on disk, Python objects, per field: nested value, copy mode, collation, typed?; mount table; "
+    "rule": "case = (file-sets on disk, Python objects, per field: DECLARED TYPE (a type tree: file classes at any tuple "
+    "position / depth of lists, dict values, unions, optionals; or no file class at all) with a conforming nested value, "
+    "copy mode, collation; mount table; "
     "job directory location); distinct by canonical JSON; non-trivial = at least two file leaves in a staged field and "
     "(a repeated or equal object, or same names from different directories, or depth >= 2, or a mount entry that "
     "changes the supported modes)",
@@ -72,6 +76,8 @@ OBLIGATIONS = [
         "C34_shape",
         "C34_memo",
         "C34_mode",
+        "C34_gate",
+        "C34_every_file_staged",
         "C34_supported_symlink",
         "C34_supported_hardlink",
         "C34_supported_keeps",
@@ -116,15 +122,15 @@ _TASKS: dict = {}
 
 
 def stage_task(specs: tuple):
-    """specs = ((mode, coll, typed), …)"""
+    """specs = ((mode, coll, declared type as JSON text), …)"""
     from fileformats.generic import FileSet
     from pydra.compose import python
 
     if specs not in _TASKS:
         inputs = {}
-        for i, (mode, coll, typed) in enumerate(specs):
+        for i, (mode, coll, tdesc) in enumerate(specs):
             inputs[f"f{i}"] = python.arg(
-                type=(ty.Union[ty.Any, FileSet] if typed else ty.Any),  # Any first: no coercion of the value
+                type=F.ty_python(json.loads(tdesc)),
                 copy_mode=FileSet.CopyMode[mode],
                 copy_collation=FileSet.CopyCollation[coll],
             )
@@ -175,6 +181,29 @@ def _gen_direct(rng) -> dict:
         "dest_root": rng.choice(["cache", "mA/cache", "mB/cache", "mA2/cache"]) if use_mounts else "cache",
         "dest": "cache",
     }
+
+
+def gen_typed(rng, tdesc: dict | None = None) -> dict:
+    """The DECLARED TYPE of a field as the generated aspect: one field whose type is drawn from `F.type_templates()` with a
+    conforming value (a file may sit at any position / depth), next to an untyped and a plain field."""
+    sets = F.gen_sets(rng, simple=True, use_mounts=False)
+    have = {p for st in sets for p in st["paths"]}
+    for extra in ({"cls": "File", "paths": ["n1/in.dat"]}, {"cls": "Directory", "paths": ["n2/indir"]}, {"cls": "File", "paths": ["n3/in.dat"]}):
+        if not (have & set(extra["paths"])):
+            sets.append(extra)
+    objs = list(range(len(sets))) + [rng.randrange(len(sets))]
+    t = tdesc or rng.choice(F.type_templates())
+    while True:
+        v = F.gen_typed_value(rng, t, sets, objs)
+        if v is not None:
+            break
+        t = rng.choice(F.type_templates())
+    mode = rng.choice(["copy", "copy", "link", "hardlink", "symlink", "hardlink_or_copy", "link_or_copy", "any"])
+    fields = [{"name": "f0", "value": v, "mode": mode, "coll": "any", "ty": t}]
+    if rng.random() < 0.5:
+        fields.append({"name": "f1", "value": {"a": rng.choice([0, 3, "s", None])}, "mode": "any", "coll": "any", "ty": {"k": "atom", "n": "Any"}})
+    return {"op": "stage", "via": "direct", "sets": sets, "objs": objs, "fields": fields, "table": [],
+            "dest_root": "cache", "dest": "cache"}  # fmt: skip
 
 
 def gen_clash(rng, mode: str) -> dict:
@@ -261,7 +290,7 @@ def oracle_selection(case: dict, root: Path, dest: Path, f: dict, s: dict) -> in
 def staged(f: dict) -> bool:
     v = f["value"]
     truthy = bool(v["a"]) if "a" in v else ("o" in v or "ref" in v or bool(v.get("l") or v.get("t") or v.get("d")))
-    return bool(f.get("typed", True)) and truthy
+    return F.ty_has_file(F.field_ty(f)) and truthy  # the oracle's gate: a file class ANYWHERE in the declared type
 
 
 def norm_name(n: str) -> str:
@@ -271,7 +300,7 @@ def norm_name(n: str) -> str:
 def d50_match(case: dict) -> bool:
     """Match rule of D50: two different staged fields, neither able to leave its files in place, would put the same
     name (up to a counter suffix) into the job directory."""
-    names = F.basenames_by_field({**case, "fields": [{**f, "truthy": staged(f), "typed": staged(f)} for f in case["fields"]]})
+    names = F.basenames_by_field({**case, "fields": [{**f, "truthy": staged(f), "ty": F.ANY_OR_FILESET if staged(f) else {"k": "atom", "n": "Any"}} for f in case["fields"]]})
     cand = []
     for f, ns in zip(case["fields"], names):
         if staged(f) and ns and not (F.MODES[f["mode"]] & 1 and not any(
@@ -369,10 +398,15 @@ def run_direct(ctx, case: dict, n: int) -> dict:
     env = F.materialise({**case, "dest": case["dest_root"]}, root)
     labelled: dict = {}
     values = [F.build_value(f["value"], env["objs"], labelled) for f in case["fields"]]
-    task_cls = stage_task(tuple((f["mode"], f["coll"], bool(f["typed"])) for f in case["fields"]))
+    task_cls = stage_task(tuple((f["mode"], f["coll"], json.dumps(F.field_ty(f), sort_keys=True)) for f in case["fields"]))
     task = task_cls(**{f"f{i}": v for i, v in enumerate(values)})
-    if any(getattr(task, f"f{i}") is not v for i, v in enumerate(values)):
-        raise RuntimeError("the task constructor changed a field value: the harness no longer drives Job.inputs as intended")
+    # pydra coerces values to the declared type (parametrised containers are rebuilt): what matters is that the value the
+    # task holds has the generated shape with the very same file objects at its leaves
+    for i, f in enumerate(case["fields"]):
+        pairs: list = []
+        if not F.same_shape(f["value"], getattr(task, f"f{i}"), env["objs"], {}, pairs) or any(r is not env["objs"][o] for o, r in pairs):
+            raise RuntimeError(f"the task constructor changed the value of a field typed {F.ty_str(F.field_ty(f))}: "
+                               "the harness no longer drives Job.inputs as intended")
     sub = Submitter(worker="debug", cache_root=root / case["dest_root"])
     job = Job(task=task, submitter=sub, name="main")
     dest = job.cache_dir
@@ -520,6 +554,8 @@ def judge_all(ctx, runs: list[dict]):
         ctx.count("mounts" if case.get("table") else "no-mounts")
         ctx.count(f"staged-fields={sum(1 for f in case['fields'] if staged(f))}")
         for f in case["fields"]:
+            if "ty" in f:
+                ctx.count("type=" + F.ty_str(f["ty"]) + (" [staged]" if staged(f) else " [not staged]"))
             if staged(f):
                 ctx.count("mode=" + f["mode"])
                 ctx.count("coll=" + f["coll"])
@@ -567,6 +603,11 @@ def correspondence(ctx):
     if any(f["id"] == "D50" for f in ctx.known()):
         fails = bool(d50) and all((not r["spec_ok"]) and r["impl"]["err"] == "FileExistsError" for r in d50)
         ctx.finding("D50", fails, "; ".join(r["why"] for r in d50) if d50 else "witness missing from corpus")
+    for rep in range(ctx.pick(3, 25)):  # every declared-type template (file class at any position / depth, or nowhere)
+        for t in F.type_templates():
+            c = gen_typed(ctx.rng, t)
+            if not F.file_key_clash(c):
+                runs.append(run_direct(ctx, c, n)); n += 1  # noqa: E702
     for rep in range(ctx.pick(2, 12)):  # same name from two directories in one field, under EVERY copy mode
         for mode in MODE_NAMES:
             runs.append(run_direct(ctx, gen_clash(ctx.rng, mode), n)); n += 1  # noqa: E702
@@ -581,7 +622,7 @@ def correspondence(ctx):
 def search(ctx):
     n = 100000
     for i in range(ctx.pick(800, 5000)):
-        c = gen_clash(ctx.rng, ctx.rng.choice(MODE_NAMES)) if i % 3 == 0 else gen_direct(ctx.rng)
+        c = gen_clash(ctx.rng, ctx.rng.choice(MODE_NAMES)) if i % 3 == 0 else (gen_typed(ctx.rng) if i % 3 == 1 else gen_direct(ctx.rng))
         r = run_direct(ctx, c, n + i)
         if not r["spec_ok"] and not d50_match(c):
             ctx.judge(c, r["impl"], None, False, what=r["why"])
